@@ -320,7 +320,7 @@ package consensus
 // C02: "re-executing the block reproduces every root in the header": the locally sealed block's roots come from the local
 // execution, never from the received header.  (Time, extra data, gas limit, miner address and parent are the miner's choice.)
 //@ func (*BlockAssembler).Seal
-//@   props C02
+//@   props C02 C10
 //@   requires ba != nil && header != nil && txProduct != nil && deputynode.cfgOK()
 //@   ensures result != nil && result.Header != nil && result.Header != header
 //@   ensures result.Header.VersionRoot == txProduct.VersionRoot && result.Header.GasUsed == txProduct.GasUsed
